@@ -2,13 +2,16 @@ INIT OInit
 NEXT ONext
 CONSTANTS
   Species = {"A", "B", "C", "D"}
-  Catalog <- Cat64
+  Catalog <- Cat32
   MaxR = 2
   KVals <- K3
   Orders <- OrdOne
   FullOrder = FALSE
   Points <- Pts1
   Feeds <- NoFeeds
+  PhaseMaps <- Ph1
+  ReKVals <- NoReK
+  MaxHist = 0
   Configs <- CfgFew
   Comp <- CompDef
 INVARIANT FreeVsInlinedAgree
@@ -20,5 +23,7 @@ INVARIANT UntouchedOnlyFeed
 INVARIANT RatePolyMatches
 INVARIANT OTypeOK
 INVARIANT PolyAgreesWithFold
+INVARIANT FeedExact
+INVARIANT CurrentConstantRules
 INVARIANT EmitBuild
 CHECK_DEADLOCK FALSE
